@@ -7,6 +7,10 @@ from . import C03, C04
 ID = 'C05'
 PROFILES = ['dev']
 T = {
+ # calls made from a block that has not declared anything yet, then names equal to the callee's parameters in the same block
+ 'call-in-fresh-block-shadowing-parameter': ('X is 10\nF takes X\ngive back X\n\nIf 9001\nPut F taking 9002 into R\nsay X\nsay R\nX is 3\n\nsay X\n', {'n1': {}, 'n2': {}}),
+ 'call-in-fresh-loop-body-parameter-unknown': ('F takes P\ngive back P\n\nC is 0\nWhile C is less than 1\nBuild C up\nsay F taking 9001\nsay P\n\nsay "end"\n', {'n1': {}}),
+ 'call-in-fresh-else-block-then-local': ('F takes P\ngive back P\n\nIf 9001\nsay 1\nElse\nsay F taking 2\nP is 7\nsay P\n\nsay P\n', {'n1': {}}),
  'by-value-args': ('X is 9001\nF takes Y\nBuild Y up\ngive back Y\n\nsay F taking X\nsay X\n', {'n1': {}}),
  'locals-do-not-leak': ('F takes Y\nZ is 9001\ngive back Z\n\nsay F taking 1\nsay Z\n', {'n1': {}}),
  'outer-variable-updated': ('X is 1\nF takes Y\nX is Y\ngive back X\n\nsay F taking 9001\nsay X\n', {'n1': {}}),
